@@ -33,6 +33,7 @@ def lt : List Char := ['&', 'l', 't', ';']
 def gt : List Char := ['&', 'g', 't', ';']
 def quot : List Char := ['&', 'q', 'u', 'o', 't', ';']
 def at64 : List Char := ['&', '#', '6', '4', ';']
+def nbsp : List Char := ['&', 'n', 'b', 's', 'p', ';']
 
 /-- `escapeForContent`: `.replace(b"&", b"&amp;").replace(b"<", b"&lt;").replace(b">", b"&gt;")`,
 three passes in this order. -/
@@ -61,10 +62,11 @@ def escapedComment (s : List Char) : List Char :=
   let d := replaceCommentEnd s
   if d.getLast? = some '-' then d ++ [' '] else d
 
-/-- docutils `HTMLTranslator.special_characters` (a `str.translate` table: one pass). -/
+/-- docutils `html4css1.HTMLTranslator.special_characters` (a `str.translate` table: one pass);
+the html4css1 writer, which pydoctor subclasses, adds U+00A0 → `&nbsp;` to the base table. -/
 def encodeChar (c : Char) : List Char :=
   if c = '&' then amp else if c = '<' then lt else if c = '"' then quot
-  else if c = '>' then gt else if c = '@' then at64 else [c]
+  else if c = '>' then gt else if c = '@' then at64 else if c.toNat = 160 then nbsp else [c]
 
 /-- docutils `HTMLTranslator.encode` -/
 def encode (s : List Char) : List Char := s.flatMap encodeChar
@@ -183,7 +185,7 @@ def ampOk : List Char → Bool
     (if c = '&' then
       startsWith ['a', 'm', 'p', ';'] r || startsWith ['l', 't', ';'] r ||
       startsWith ['g', 't', ';'] r || startsWith ['q', 'u', 'o', 't', ';'] r ||
-      startsWith ['#', '6', '4', ';'] r
+      startsWith ['#', '6', '4', ';'] r || startsWith ['n', 'b', 's', 'p', ';'] r
      else true) && ampOk r
 
 def contentSafe (s : List Char) : Bool :=
@@ -303,8 +305,12 @@ def renderTok : Tok → List Char
 def render (ts : List Tok) : List Char := ts.flatMap renderTok
 
 /-- XML `Name` restricted to ASCII: `[A-Za-z_:][A-Za-z0-9_:.-]*` -/
-def nameStart (c : Char) : Bool := c.isAlpha || c = '_' || c = ':'
-def nameChar (c : Char) : Bool := nameStart c || c.isDigit || c = '.' || c = '-'
+def isLetter (c : Char) : Bool :=
+  let n := c.toNat
+  (65 ≤ n && n ≤ 90) || (97 ≤ n && n ≤ 122)
+def isDigit (c : Char) : Bool := 48 ≤ c.toNat && c.toNat ≤ 57
+def nameStart (c : Char) : Bool := isLetter c || c = '_' || c = ':'
+def nameChar (c : Char) : Bool := nameStart c || isDigit c || c = '.' || c = '-'
 def validName : List Char → Bool
   | [] => false
   | c :: r => nameStart c && r.all nameChar
@@ -358,8 +364,8 @@ structure IdTables where
   start : Char → Bool
   cont : Char → Bool
 
-def asciiIdStart (c : Char) : Bool := c.isAlpha || c = '_'
-def asciiIdCont (c : Char) : Bool := c.isAlpha || c = '_' || c.isDigit
+def asciiIdStart (c : Char) : Bool := isLetter c || c = '_'
+def asciiIdCont (c : Char) : Bool := isLetter c || c = '_' || isDigit c
 
 /-- ASCII exactly as CPython; non-ASCII characters by the two given lists -/
 def tablesOf (xs xc : List Char) : IdTables :=
@@ -411,10 +417,13 @@ def isPySpace (c : Char) : Bool :=
   (0x2000 ≤ n && n ≤ 0x200A) || n == 0x2028 || n == 0x2029 || n == 0x202F || n == 0x205F ||
   n == 0x3000
 
-/-- line boundaries of `str.splitlines` (docutils `string2lines`) -/
+/-- docutils `string2lines(convert_whitespace=True)`: `[\v\f]` → space, before the text is split -/
+def convertWs (c : Char) : Char := if c.toNat = 11 ∨ c.toNat = 12 then ' ' else c
+
+/-- line boundaries of `str.splitlines` that are left after `convertWs` (docutils `string2lines`) -/
 def isLineBreak (c : Char) : Bool :=
   let n := c.toNat
-  (10 ≤ n && n ≤ 13) || (28 ≤ n && n ≤ 30) || n == 0x85 || n == 0x2028 || n == 0x2029
+  n == 10 || n == 13 || (28 ≤ n && n ≤ 30) || n == 0x85 || n == 0x2028 || n == 0x2029
 
 /-- ASCII members of docutils `end_string_suffix`: `\s`, NUL, closing delimiters `\.,;!?`,
 delimiters `-` `/` `:`, closers `"')>]}`; non-ASCII punctuation is not modelled (treated as no suffix) -/
@@ -466,7 +475,7 @@ def literalStartOk : List Char → Bool
 
 /-- what docutils makes of the wrapped replacement `r'` (already without `\n`) placed in
 "… please use ``r'`` instead.": `broken` = the text spans several lines for `splitlines` (the
-directive body ends inside the replacement), `nolit` = no inline literal is recognised there,
+directive ends inside the replacement; tab expansion is not modelled), `nolit` = no inline literal is recognised there,
 `lit t` = a literal with text `t` followed by source `rest`. -/
 inductive LitResult where
   | broken
@@ -477,16 +486,17 @@ inductive LitResult where
 def tailText : List Char := ['`', '`', ' ', 'i', 'n', 's', 't', 'e', 'a', 'd', '.']
 
 def interpolatedLiteral (r' : List Char) : LitResult :=
-  if r'.any isLineBreak then .broken
-  else if !literalStartOk (r' ++ tailText) then .nolit
-  else match literalParse (r' ++ tailText) with
+  let r2 := r'.map convertWs
+  if r2.any isLineBreak then .broken
+  else if !literalStartOk (r2 ++ tailText) then .nolit
+  else match literalParse (r2 ++ tailText) with
     | some (t, rest) => .lit t rest
     | none => .nolit
 
 /-- the hypothesis under which the wrapping is proved to hold the replacement -/
 def literalSafe (r : List Char) : Bool :=
   !r.isEmpty && !r.contains '`' && !r.contains '\\' && !r.any (fun c => c.toNat == 0) &&
-  !r.any isLineBreak &&
+  !r.any isLineBreak && !r.any (fun c => c.toNat == 9 || c.toNat == 11 || c.toNat == 12) &&
   (match r.head? with | some c => !isPySpace c | none => false) &&
   (match r.getLast? with | some c => !isPySpace c | none => false)
 
